@@ -23,7 +23,8 @@ Inductive pc :=
 | S3                        (* holds the lock, about to release it (with or without a frame in hand) *)
 | S4                        (* released, about to notify_all *)
 | S5                        (* about to dispatch the frame in hand *)
-| Returned.                 (* wait() returned: the result cell was ready *)
+| Returned                  (* wait() returned: the result cell was ready *)
+| TimedOut.                 (* wait() gave up: the request's own expiry had passed and the cell was not ready (AsyncResultTimeout) *)
 
 Inductive phase := PNone | POut | PIn | PHand (t : nat) | PDone.
 
@@ -36,7 +37,9 @@ Record st := {
   holder : option nat;                (* receive lock *)
   ready : nat -> bool;                (* result cells *)
   dispatched : list nat;              (* log of dispatches *)
-  ph : nat -> phase                   (* ghost: where the reply to each request is *)
+  ph : nat -> phase;                  (* ghost: where the reply to each request is *)
+  expd : nat -> bool;                 (* the request's own expiry has passed (time only moves on: set by LExpire, never reset) *)
+  late : nat -> bool                  (* ghost: the reply was dispatched after the expiry and therefore dropped by AsyncResult.__call__ *)
 }.
 
 Definition upd {A} (f : nat -> A) (i : nat) (v : A) : nat -> A := fun j => if Nat.eqb j i then v else f j.
@@ -45,11 +48,12 @@ Definition wake (t : thr) : thr := match tpc t with Asleep => set_pc t LoopTest 
 
 Inductive label :=
 | LIssue | LStep | LTimeout       (* thread steps: issue a request / the next program step / a poll or wait times out *)
-| LAnswer (s : nat).              (* environment: the peer's reply to request s enters the stream *)
+| LAnswer (s : nat)               (* environment: the peer's reply to request s enters the stream *)
+| LExpire (s : nat).              (* environment: the clock passes the expiry of request s *)
 
 Definition with_thr (s : st) (i : nat) (t : thr) : st :=
   {| thrs := upd (thrs s) i t; counter := counter s; pending := pending s; inbox := inbox s; holder := holder s;
-     ready := ready s; dispatched := dispatched s; ph := ph s |}.
+     ready := ready s; dispatched := dispatched s; ph := ph s; expd := expd s; late := late s |}.
 
 Definition step (l : label) (i : nat) (s : st) : option st :=
   let t := thrs s i in
@@ -57,16 +61,19 @@ Definition step (l : label) (i : nat) (s : st) : option st :=
   | LAnswer q =>
       match ph s q with
       | POut => Some {| thrs := thrs s; counter := counter s; pending := pending s; inbox := inbox s ++ [q]; holder := holder s;
-                        ready := ready s; dispatched := dispatched s; ph := upd (ph s) q PIn |}
+                        ready := ready s; dispatched := dispatched s; ph := upd (ph s) q PIn; expd := expd s; late := late s |}
       | _ => None
       end
+  | LExpire q =>
+      Some {| thrs := thrs s; counter := counter s; pending := pending s; inbox := inbox s; holder := holder s;
+              ready := ready s; dispatched := dispatched s; ph := ph s; expd := upd (expd s) q true; late := late s |}
   | LIssue =>
       match tpc t, server t with
       | Idle, false =>
           let q := counter s in
           Some {| thrs := upd (thrs s) i {| tpc := LoopTest; myseq := Some q; hand := None; server := false |};
                   counter := S q; pending := upd (pending s) q (Some i); inbox := inbox s; holder := holder s;
-                  ready := ready s; dispatched := dispatched s; ph := upd (ph s) q POut |}
+                  ready := ready s; dispatched := dispatched s; ph := upd (ph s) q POut; expd := expd s; late := late s |}
       | Idle, true => Some (with_thr s i (set_pc t LoopTest))
       | _, _ => None
       end
@@ -80,37 +87,40 @@ Definition step (l : label) (i : nat) (s : st) : option st :=
       match tpc t with
       | LoopTest =>
           match myseq t with
-          | Some q => if ready s q then Some (with_thr s i (set_pc t Returned)) else Some (with_thr s i (set_pc t S1))
+          | Some q => if ready s q then Some (with_thr s i (set_pc t Returned))
+                      else if expd s q then Some (with_thr s i (set_pc t TimedOut))     (* while not ready and not expired *)
+                      else Some (with_thr s i (set_pc t S1))
           | None => Some (with_thr s i (set_pc t S1))
           end
       | S1 =>
           match holder s with
           | None => Some {| thrs := upd (thrs s) i (set_pc t S2); counter := counter s; pending := pending s; inbox := inbox s;
-                            holder := Some i; ready := ready s; dispatched := dispatched s; ph := ph s |}
+                            holder := Some i; ready := ready s; dispatched := dispatched s; ph := ph s; expd := expd s; late := late s |}
           | Some _ => Some (with_thr s i (set_pc t Asleep))
           end
       | S2 =>
           match inbox s with
           | q :: rest => Some {| thrs := upd (thrs s) i {| tpc := S3; myseq := myseq t; hand := Some q; server := server t |};
                                  counter := counter s; pending := pending s; inbox := rest; holder := holder s;
-                                 ready := ready s; dispatched := dispatched s; ph := upd (ph s) q (PHand i) |}
+                                 ready := ready s; dispatched := dispatched s; ph := upd (ph s) q (PHand i); expd := expd s; late := late s |}
           | [] => None                                                 (* blocked in poll *)
           end
       | S3 => Some {| thrs := upd (thrs s) i (set_pc t S4); counter := counter s; pending := pending s; inbox := inbox s;
-                      holder := None; ready := ready s; dispatched := dispatched s; ph := ph s |}
+                      holder := None; ready := ready s; dispatched := dispatched s; ph := ph s; expd := expd s; late := late s |}
       | S4 =>
           let woken := fun j => wake (thrs s j) in
           Some {| thrs := upd woken i (set_pc t (match hand t with Some _ => S5 | None => LoopTest end));
                   counter := counter s; pending := pending s; inbox := inbox s; holder := holder s;
-                  ready := ready s; dispatched := dispatched s; ph := ph s |}
+                  ready := ready s; dispatched := dispatched s; ph := ph s; expd := expd s; late := late s |}
       | S5 =>
           match hand t with
           | Some q =>
               (* _seq_request_callback: pop the callback; AsyncResult.__call__: store, then mark ready *)
               Some {| thrs := upd (thrs s) i {| tpc := LoopTest; myseq := myseq t; hand := None; server := server t |};
                       counter := counter s; pending := upd (pending s) q None; inbox := inbox s; holder := holder s;
-                      ready := (match pending s q with Some _ => upd (ready s) q true | None => ready s end);
-                      dispatched := dispatched s ++ [q]; ph := upd (ph s) q PDone |}
+                      ready := (match pending s q with Some _ => if expd s q then ready s else upd (ready s) q true | None => ready s end);
+                      dispatched := dispatched s ++ [q]; ph := upd (ph s) q PDone; expd := expd s;
+                      late := (if expd s q then upd (late s) q true else late s) |}
           | None => None
           end
       | _ => None
@@ -124,7 +134,7 @@ Inductive reach (s0 : st) : st -> Prop :=
 Definition init (servers : nat -> bool) : st :=
   {| thrs := fun i => {| tpc := Idle; myseq := None; hand := None; server := servers i |};
      counter := 0; pending := fun _ => None; inbox := []; holder := None; ready := fun _ => false; dispatched := [];
-     ph := fun _ => PNone |}.
+     ph := fun _ => PNone; expd := fun _ => false; late := fun _ => false |}.
 
 (* C14: a waiter is stalled when its reply has been processed but it sits in poll on an empty stream *)
 Definition stalled (s : st) (w : nat) : Prop :=
@@ -132,11 +142,11 @@ Definition stalled (s : st) (w : nat) : Prop :=
 
 (* ---- harness interface: replay a trace of (label, tid) events; report whether each was enabled and the final summary ---- *)
 Definition pc_n (p : pc) : Z :=
-  match p with Idle => 0 | LoopTest => 1 | S1 => 2 | Asleep => 3 | S2 => 4 | S3 => 5 | S4 => 6 | S5 => 7 | Returned => 8 end.
+  match p with Idle => 0 | LoopTest => 1 | S1 => 2 | Asleep => 3 | S2 => 4 | S3 => 5 | S4 => 6 | S5 => 7 | Returned => 8 | TimedOut => 9 end.
 Definition label_of_sx (x : sx) : label * nat :=
   match x with
   | SL [SI 0; i] => (LIssue, sx_nat i) | SL [SI 1; i] => (LStep, sx_nat i) | SL [SI 2; i] => (LTimeout, sx_nat i)
-  | SL [SI 3; q] => (LAnswer (sx_nat q), O) | _ => (LTimeout, O)
+  | SL [SI 3; q] => (LAnswer (sx_nat q), O) | SL [SI 4; q] => (LExpire (sx_nat q), O) | _ => (LTimeout, O)
   end%Z.
 (* what the harness saw the thread do, checked BEFORE the model takes the step: the pc the thread must be at and, for reads and
    dispatches, the sequence number involved: [SL [SI 1; tid; SI pc; SI q]] (q = -1: no number to check) *)
